@@ -18,7 +18,9 @@ PROP = dict(
          "i.e. the hand-written decode functions ran. registry/framing/resultkinds: complete enumerations (every case non-trivial).",
     assumptions=["equality identifies nil and empty slices/maps, RowIdentifiers and *RowIdentifiers, errors with equal messages; rows are compared by columns, keys, attrs",
                  "a group member of a GroupCount carries either a row id or a non-empty row key (FieldRow JSON form does the same)",
-                 "an error with the empty message is not generated (the empty string encodes 'no error')"],
+                 "an error with the empty message is not generated (the empty string encodes 'no error')",
+                 "while DP14 is open, a panic whose frames above Serializer.Unmarshal lie only in the generated code internal/*.pb.go is counted as excluded (signature of DP14); a panic in the hand-written decode functions is always a violation",
+                 "while DP8 is open, IndexInfo.Options is generated as the zero value"],
     tags=["gp"],
     exhaustive=True,
     units=[
